@@ -18,7 +18,7 @@ CLAIMED = {
              note="Trusted: the intents model; valid lexical forms only for native-typed literals. Sequences bounded to 8 ops after a fixed 9-op setup.", ref="4 C05"),
  "C08": dict(technique="property-based testing against a reference unification computed from abstract content (collision-biased generator), plus idempotence and purity relations",
              text="Recipes with forced identifier collisions (same kind with equal / subset / conflicting formal arguments, other kinds, other prefixes, inside bundles) are unified by the library and by a reference implementation over the intents; raise/no-raise, ordered strict content, bundle identifiers, idempotence, novelty of the result and immutability of the source are compared, for ProvDocument.unified() and ProvBundle.unified().",
-             note="Trusted: the reference unification (60 lines over abstract content). Multi-member memberships (compatibility path) are outside the claim and discarded with a counter.", ref="4 C08"),
+             note="Trusted: the reference unification (60 lines over abstract content). Multi-member memberships (compatibility path) are outside the claim and discarded with a counter. Every run also enumerates record kind x formal argument x {same, omitted, conflicting} x {document, bundle} and performs lookups of absent identifiers before unifying.", ref="4 C08"),
  "C02": dict(technique="property-based round trip (Hypothesis recipes in the XML-expressible subspace + exhaustively enumerated value kind x attribute slot x record class x force_types core), strict URI-level kind-aware multiset oracle",
              text="As C01 for PROV-XML: recipes restricted by construction to the statement's XML-expressible subspace (re-checked on the built document), both force_types values, text and binary destinations, subtype prov:type values as names and as strings, default namespaces at both levels; compared after the round trip with the strict canonical form. The value/slot/record-class/force_types product is enumerated exhaustively in every run.",
              note="Trusted: canon(), the expressibility predicate (pbt/xmlx.py). Bounded document sizes.", ref="4 C02"),
@@ -29,7 +29,7 @@ CLAIMED = {
              text="Every record-adding path (factories, new_record, add_record, update, add_bundle, constructor, JSON and XML deserialisation, unified, flattened) is exercised in random order on a document with bundles and a second document; after every step every container answers get_record(x) for every pool identifier in every accepted spelling, get_records(cls) for 23 class filters and the copy semantics of records/get_records(), all compared by object identity and order with a scan of get_records().",
              note="Trusted: the scan oracle (list comprehension over get_records()). Identifier pool of 4 URIs, histories of 25/30 steps.", ref="4 C18"),
  "C12": dict(technique="property-based aliasing test: deriving operation x follow-up mutation x side, snapshot of the untouched side (full grid enumerated + random recipes)",
-             text="For 9 deriving operations, 7 follow-up mutations and both sides, the untouched object's complete observable state (ordered strict content, registered namespaces, default namespace, per bundle) is snapshotted before and after mutating the other object; the 9x7x2 grid is enumerated on seed documents in every run and sampled on random recipes.",
+             text="For 12 deriving operations (incl. documents converted from a graph, twice from one graph), 9 follow-up mutations and both sides, the untouched object's complete observable state (ordered strict content, registered namespaces, default namespace, per bundle) is snapshotted before and after mutating the other object; the 9x7x2 grid is enumerated on seed documents in every run and sampled on random recipes.",
              note="Trusted: snapshot() over public accessors. One mutation per case (no long mutation sequences).", ref="4 C12"),
  "C13": dict(technique="property-based purity/determinism test: random sequences of export calls, before/after snapshots, repeat and twin comparison",
              text="Random sequences over 40 exporter/option/destination combinations (JSON, XML, RDF, PROV-N, get_provn, str, graph, DOT, ==, !=, hash, unified, flattened) run on generated documents; after every call the complete observable state must be unchanged (also when the exporter raises), each text export must repeat identically and agree with a twin built by replaying the recipe (RDF: isomorphic graphs).",
@@ -45,10 +45,10 @@ CLAIMED = {
              note="Trusted: pbt/readers/provjson.py and provxml.py (stdlib json / xml.etree only). Ambiguous bundle-identifier scope is not judged (counted).", ref="4 C10"),
  "C07": dict(technique="property-based round trip inside a constructively generated PROV-O-expressible subspace + exhaustively enumerated relation kind x argument mask x identified x attribute-class core; set-based oracle against unified()",
              text="Documents are constructed so that every clause of the statement's quantifier holds (a post-pass drops or adjusts records that would violate one, with counters); they are written as TriG and read back; any exception is a violation, and per container the set of strict canonical records must equal that of unified(). The relation matrix (15 kinds x optional masks x identified x 5 attribute classes) and element x value kind x slot matrix are enumerated in every run.",
-             note="Trusted: unified() (decided by C08), rdflib's TriG writer/parser; blank-node labels are pinned by the harness so that a case has one outcome. One open known finding (F-C07-1) is excluded by construction.", ref="4 C07"),
+             note="Trusted: unified() (decided by C08), rdflib's TriG writer/parser; blank-node labels are pinned by the harness so that a case has one outcome. Two open known findings (F-C07-1, F-C07-2) are excluded by construction with counters.", ref="4 C07"),
  "C16": dict(technique="property-based testing with a full per-document product over format x destination kind x source kind x detection mode; strict content oracle",
              text="For every generated document (intersection of the JSON/XML/RDF spaces, non-ASCII content) all 5 format variants are written to 4 destination kinds and compared, then read back from 5 source kinds with an explicit format and through prov.read from 3 source kinds with and without a format; every cell must reproduce the document's strict content (RDF: the unified set). Cell counters in the evidence show that no cell is empty.",
-             note="Trusted: canon(); lxml C14N for XML text equality; rdflib isomorphism for RDF texts that differ only in blank-node labels. Plain file names only (C17 covers hostile names and faults).", ref="4 C16"),
+             note="Trusted: canon(); lxml C14N for XML text equality; rdflib isomorphism for RDF texts that differ only in blank-node labels. Plain file names only (C17 covers hostile names and faults). Format detection is also exercised in fresh child interpreters that have used at most one other format before prov.read().", ref="4 C16"),
  "C17": dict(category="fault_enumeration", technique="fault injection enumerated per generated case: every write-family and rename-family syscall of the call is failed once with strace -e inject, in a child process; exact file-name and all-or-nothing oracle on the directory listing and file bytes",
              text="The harness owns the fault schedule: for each case (format x file-name class with URL syntax x pre-existing destination x temp-directory placement x document size) a fault-free traced run takes the census of the syscalls that touch the scratch directories and then every one of them is failed once (ENOSPC/EIO/EACCES), plus a serialisation that raises half way. Fault-free the work directory must gain exactly the named file with the bytes of serialize(BytesIO); under a fault the destination must be byte-identical to its old content (or absent) when the exception propagates, or complete when the call returns.",
              note="Trusted: strace 6.1 syscall injection (ptrace), the child's exit-status protocol. Within a case the fault points are exhaustive; across cases the quick tier samples the product by VERIF_SEED and the thorough tier enumerates it (288 cases).", ref="4 C17"),
